@@ -21,9 +21,9 @@ class Gen(ExprGen):
         p = self.prog = Program()
         self.int_focus = [T(n) for n in rng.sample(INT_NAMES, rng.range(3, 5))]
         self.float_on = rng.chance(1, 6)
-        self.variant_direct = self.L >= 3 and rng.chance(1, 25)
+        self.variant_direct = self.L >= 3 and rng.chance(1, 2)      # fixed in /repo (fcaa61b): a regular construct now
         self.empty_vararg_first = self.L >= 4 and rng.chance(1, 40)
-        self.selfref_literal = self.L >= 2 and rng.chance(1, 20)
+        self.selfref_literal = self.L >= 2 and rng.chance(1, 2)      # fixed in /repo: a regular construct now
         # README is silent on whether a switch argument is a copy of the payload or an alias of the scrutinee (capy aliases),
         # so no program writes the scrutinee inside an arm: not constrained by the statement, not judged
         self.scrutinee_write = False
@@ -109,6 +109,8 @@ class Gen(ExprGen):
                     t = self.payload_ty()
                     if t != e and not (self.base(t)[0] == "array" and self.base(t)[1] == e):
                         self.sum_types.append(("err", e, t))
+                        if rng.chance(2, 3):
+                            self.sum_types.append(("opt", e))      # a function -> ?E can absorb the error of E!T through .try
                         break
             for e in p.enums:
                 self.sum_types.append(("enum", e))
@@ -148,6 +150,19 @@ class Gen(ExprGen):
             else:
                 t = self.scalar_ty()
             fields.append((self.fresh("m"), t))
+        if rng.chance(1, 2) or with_sums:
+            # a NON-FIRST member that is itself an aggregate (compared recursively by ==, copied as a block)
+            cands = [("array", rng.pick(self.int_focus), rng.range(2, 3))]
+            if named:
+                cands.append(("struct", rng.pick(named)))
+            if self.L >= 3:
+                cands += [("opt", rng.pick(self.int_focus)), ("err", BOOL, rng.pick(self.int_focus))]
+                if p.enums:
+                    cands.append(("enum", rng.pick(sorted(p.enums))))
+            fields.append((self.fresh("m"), rng.pick(cands)))
+            if rng.chance(1, 2):
+                fields.append((self.fresh("m"), rng.pick(self.int_focus + [BOOL])))
+            self.use("nonfirst_aggregate_member")
         if with_sums:
             fields.append((self.fresh("m"), ("opt", self.scalar_ty())))
             if p.enums and rng.chance(1, 2):
@@ -220,6 +235,13 @@ class Gen(ExprGen):
             ret = rng.pick(self.sum_types)
         else:
             ret = self.scalar_ty()
+        if self.L >= 3:
+            errs = [t for t in self.sum_types if t[0] == "err"]
+            producers = [f for f in self.prog.funcs if f.ret[0] == "err" and not f.rec]
+            if producers and rng.chance(1, 3):
+                ret = ("opt", rng.pick(producers).ret[1])        # consumer: `.try` on E!T inside -> ?E
+            elif errs and rng.chance(1, 6):
+                ret = rng.pick(errs)                              # producer
         params = []
         for _ in range(rng.range(0, 4)):
             r = rng.below(100)
@@ -237,25 +259,35 @@ class Gen(ExprGen):
             else:
                 t = self.scalar_ty()
             params.append((self.fresh("p"), t, False))
-        if self.L >= 4 and rng.chance(1, 7):
+        padded_va = None
+        if self.L >= 4 and rng.chance(1, 8):
+            # varargs whose ELEMENT type has tail padding (size != stride): ?i32, E!i64, payload enums, struct { i64, bool }
+            cands = self.padded_types()
+            if cands:
+                self.use("varargs")
+                self.use("varargs_padded")
+                padded_va = self.fresh("p")
+                params = params[:2] + [(padded_va, rng.pick(cands), True)]
+        if padded_va is None and self.L >= 4 and rng.chance(1, 7):
             self.use("varargs")
             if rng.chance(1, 3):
                 # two varargs groups separated by a parameter of another type
                 params = params[:2] + [(self.fresh("p"), self.rng.pick(self.int_focus), True), (self.fresh("p"), BOOL, False)]
             params.append((self.fresh("p"), self.decl_ty({"scalar"}), True))
         # a signature that matches a function alias now and then (so that it can be passed around)
-        if self.prog.fnaliases and rng.chance(1, 3):
+        if self.prog.fnaliases and padded_va is None and rng.chance(1, 3):
             an = rng.pick(sorted(self.prog.fnaliases))
             ps, ret = self.prog.fnaliases[an]
             params = [(self.fresh("p"), t, False) for _, t in ps]
         impure_sig = ret == VOID or any(t[0] == "ptr" and t[2] for _, t, _ in params) or any(t[0] == "fn" for _, t, _ in params)
-        pure = (not impure_sig) and rng.chance(1, 2)
+        pure = (not impure_sig) and padded_va is None and rng.chance(1, 2)
         rec = self.base(ret)[0] in ("int", "bool") and not any(va for _, _, va in params) and rng.chance(1, 7)
         if rec:
             self.use("recursion")
             params = [(self.fresh("n"), T("u8"), False)] + params
         f = FuncDef(name, params, ret, None, pure)
         f.rec = rec
+        f.padded_va = padded_va
         ctx = Ctx(name, ret, pure)
         for pn, pt, va in params:
             self.declare(ctx, pn, ("slice", pt) if va else pt, False, kind="param")
@@ -280,6 +312,8 @@ class Gen(ExprGen):
         n = rng.range(1, 7)
         if mid is not None:
             inject.append((rng.below(n + 1), mid))
+        if padded_va is not None:
+            inject.append((0, lambda c: self.va_dump(c, padded_va)))
         if inject_fault:
             inject.append((rng.below(n + 1), self.gen_fault_stmts))
         if self.base(ret)[0] in ("opt", "err"):
@@ -299,6 +333,73 @@ class Gen(ExprGen):
         body.stmts = touch + pre + body.stmts
         f.body = body
         return f
+
+    def layout(self, ty):
+        """(size without tail padding, alignment) the way a C-like layout gives it; None for types it does not model"""
+        b = self.base(ty)
+        if b[0] == "int":
+            n = self.info(b)[0] // 8
+            return n, min(n, 8) if n < 16 else 8
+        if b[0] in ("bool", "char"):
+            return 1, 1
+        if b[0] == "float":
+            return b[1] // 8, b[1] // 8
+        if b[0] == "array":
+            l = self.layout(b[1])
+            if l is None:
+                return None
+            stride = -(-l[0] // l[1]) * l[1]
+            return stride * (b[2] - 1) + l[0], l[1]
+        if b[0] == "struct":
+            off, al = 0, 1
+            for _, ft in self.prog.structs[b[1]]:
+                l = self.layout(ft)
+                if l is None:
+                    return None
+                off = -(-off // l[1]) * l[1] + l[0]
+                al = max(al, l[1])
+            return off, al
+        return None
+
+    def padded_types(self):
+        """element types whose size is not a multiple of their alignment (so that size != stride)"""
+        out = [("opt", t) for t in self.int_focus if self.info(t)[0] >= 16] + [("opt", T("i32"))]
+        for t in self.sum_types:
+            if t[0] == "err" or (t[0] == "opt" and self.base(t[1])[0] != "enum"):
+                out.append(t)
+            if t[0] == "enum" and any(pl is not None and (self.layout(pl) or (2, 2))[1] > 1 for _, pl, _ in self.prog.enums[t[1]]):
+                out.extend([t, t])
+        for sn in self.prog.structs:
+            if sn in self.prog.inline_structs:
+                continue
+            l = self.layout(("struct", sn))
+            if l is None or l[0] % l[1] != 0:
+                out.extend([("struct", sn)] * 3)
+        return out
+
+    def va_dump(self, ctx, pn):
+        """first statements of a function with a padded varargs parameter: its length, then EVERY element, leaf by leaf"""
+        v = [x for x in ctx.scopes[0] if x.name == pn][0]
+        elem = self.base(v.ty)[1]
+        out = [N("print", id=self.new_id(), e=N("len", e=var(v), ty=USIZE))]
+        cname = self.fresh("c")
+        self.declare(ctx, cname, USIZE, True, kind="counter")
+        cv = N("var", name=cname, ty=USIZE)
+        ename = self.fresh()
+        el = N("index", base=var(v), idx=N("bin", op="-", a=cv, b=lit(USIZE, 1), ty=USIZE), ty=elem)
+        ev_ = N("var", name=ename, ty=elem)
+        body = [N("assign", place=cv, op="+=", e=lit(USIZE, 1)), N("decl", name=ename, ty=elem, mut=False, init=el, annotate=self.rng.chance(1, 2))]
+        if self.is_sum(elem):
+            self.use("is_variant")
+            for target, tag in self.sum_targets(elem)[:5]:
+                body.append(N("print", id=self.new_id(), e=N("isvar", e=ev_, target=target, ty=BOOL)))
+            body.extend(self.print_payloads(ctx, ev_, elem, limit=6))
+        else:
+            body.extend(self.print_all(ctx, ev_, elem, limit=8))
+        self.use("while")
+        out.append(N("decl", name=cname, ty=USIZE, mut=True, init=lit(USIZE, 0), annotate=True))
+        out.append(N("while", cond=N("bin", op="<", a=cv, b=N("len", e=var(v), ty=USIZE), ty=BOOL), body=Block(body), label=None))
+        return out
 
     def gen_main(self):
         rng = self.rng
@@ -436,7 +537,7 @@ class Gen(ExprGen):
                 if not ctx.pure:
                     opts += [("defer", 2)]
         if self.L >= 2:
-            opts += [("decl_agg", 6), ("decl_ptr", 3), ("decl_slice", 2), ("ptr_write", 3)]
+            opts += [("decl_agg", 6), ("decl_ptr", 3), ("decl_slice", 2), ("ptr_write", 3), ("eq_probe", 3)]
             if not deep:
                 opts += [("seq_loop", 3)]
         if self.L >= 3:
@@ -899,6 +1000,88 @@ class Gen(ExprGen):
         return [N("decl", name=cname, ty=t, mut=True, init=lit(t, 0), annotate=True),
                 N("while", cond=N("bin", op="<", a=cv, b=N("len", e=var(v), ty=USIZE), ty=BOOL), body=body, label=None)]
 
+    # ---- equality of structs that differ only inside a non-first aggregate member
+    def nonfirst_agg_members(self, ty):
+        fs = self.prog.structs[self.base(ty)[1]]
+        return [(f, t) for f, t in fs[1:] if self.base(t)[0] in ("struct", "array", "enum", "opt", "err")]
+
+    def mini_block(self, ctx, fn):
+        pre = []
+        ctx.scopes.append([])
+        ctx.hoist.append(pre)
+        ss = fn()
+        ctx.hoist.pop()
+        ctx.scopes.pop()
+        return Block(pre + ss)
+
+    def mutate_leaf(self, ctx, dst, ty, src):
+        """statements that make the part `dst` of a copy differ from the same part `src` of the original in ONE leaf"""
+        b = self.base(ty)
+        k = b[0]
+        rng = self.rng
+        if k == "int":
+            return [N("assign", place=dst, op="=", e=N("bin", op="+", a=src, b=lit(ty, 1), ty=ty))]
+        if k == "bool":
+            return [N("assign", place=dst, op="=", e=N("un", op="!", e=src, ty=BOOL))]
+        if k == "char":
+            u8 = T("u8")
+            flip = N("bin", op="&", a=N("bin", op="~", a=N("cast", ty=u8, e=src), b=lit(u8, 1), ty=u8), b=lit(u8, 127), ty=u8)
+            return [N("assign", place=dst, op="=", e=N("cast", ty=CHAR, e=flip))]
+        if k == "array":
+            i = rng.below(b[2])
+            return self.mutate_leaf(ctx, N("index", base=dst, idx=lit(USIZE, i), ty=b[1]), b[1], N("index", base=src, idx=lit(USIZE, i), ty=b[1]))
+        if k == "struct":
+            fs = [(f, t) for f, t in self.prog.structs[b[1]] if self.base(t)[0] != "float"]
+            if not fs:
+                return None
+            f, t = fs[-1] if rng.chance(1, 2) else rng.pick(fs)
+            return self.mutate_leaf(ctx, N("field", base=dst, name=f, ty=t), t, N("field", base=src, name=f, ty=t))
+        if k in ("opt", "err", "enum"):
+            targets = self.sum_targets(ty)
+            (t0, tag0), (t1, tag1) = targets[0], targets[1]
+
+            def mk(tag):
+                if k == "enum":
+                    return self.gen_variant(ctx, ty, 0, vname=tag)
+                if tag == "nil":
+                    return N("nil", ty=ty)
+                inner = b[1] if (k == "opt" or tag == "err") else b[2]
+                e = self.sum_inner(ctx, inner, 0)
+                return N("wrap", how=tag, e=self.gate_ok_literal(e) if tag == "ok" else e, ty=ty)
+            then = self.mini_block(ctx, lambda: [N("assign", place=dst, op="=", e=mk(tag1))])
+            els = self.mini_block(ctx, lambda: [N("assign", place=dst, op="=", e=mk(tag0))])
+            return [N("if", cond=N("isvar", e=src, target=t0, ty=BOOL), then=then, els=els)]
+        return None
+
+    def st_eq_probe(self, ctx):
+        """a : S = ..; b := a; [b.<non-first aggregate member>.<leaf> = something else;] print a == b, a != b, if a == b {..}"""
+        if ctx.pure or not ctx.hoist or ctx.budget < 6:
+            return None
+        rng = self.rng
+        cands = [t for t in self.agg_types if t[0] == "struct" and self.eq_comparable(t) and self.nonfirst_agg_members(t)]
+        if not cands:
+            return None
+        ty = rng.pick(cands)
+        have = [v for v in self.visible(ctx) if v.ty == ty and v.kind in ("local", "param") and v.name not in ctx.frozen]
+        a = rng.pick(have) if have and rng.chance(1, 2) else self.hoist_decl(ctx, ty, self.gen_agg(ctx, ty, 1), mut=rng.chance(1, 2))
+        bname = self.fresh()
+        out = [N("decl", name=bname, ty=ty, mut=True, init=var(a), annotate=rng.chance(1, 2))]
+        bv = self.declare(ctx, bname, ty, True)
+        self.use("struct_copy")
+        self.use("agg_eq")
+        self.use("eq_probe")
+        if rng.chance(3, 4):
+            f, ft = rng.pick(self.nonfirst_agg_members(ty))
+            m = self.mutate_leaf(ctx, N("field", base=var(bv), name=f, ty=ft), ft, N("field", base=var(a), name=f, ty=ft))
+            if m:
+                out.extend(m)
+                self.use("eq_probe_differs")
+        x, y = (var(a), var(bv)) if rng.chance(1, 2) else (var(bv), var(a))
+        out.append(N("print", id=self.new_id(), e=N("bin", op="==", a=x, b=y, ty=BOOL)))
+        out.append(N("print", id=self.new_id(), e=N("bin", op="!=", a=y, b=x, ty=BOOL)))
+        out.append(N("if", cond=N("bin", op=rng.pick(["==", "!="]), a=x, b=y, ty=BOOL), then=Block([N("ev", id=self.new_id())]), els=Block([N("ev", id=self.new_id())])))
+        return out
+
     def st_block(self, ctx):
         return [N("block", block=self.small_block(ctx))]
 
@@ -1119,37 +1302,44 @@ class Gen(ExprGen):
         rb = self.base(ctx.ret)
         if rb[0] not in ("opt", "err") or ctx.in_expr:
             return None
+        is_err_of = lambda t: self.base(t)[0] == "err" and self.base(t)[1] == rb[1]
         if rb[0] == "opt":
-            ok = lambda t: self.base(t)[0] == "opt"
+            # `.try` on E!T inside a function returning ?E hands the error back as a present value
+            ok = lambda t: self.base(t)[0] == "opt" or is_err_of(t)
         else:
-            ok = lambda t: self.base(t)[0] == "err" and self.base(t)[1] == rb[1]
+            ok = is_err_of
         src = None
         fs = [f for f in self.prog.funcs if ok(f.ret) and (f.pure or not ctx.pure) and not f.rec]
-        if fs and self.rng.chance(1, 2):
+        ps = self.paths(ctx, ok, dyn=False)
+        if rb[0] == "opt":
+            # prefer the mixed combination when it is available
+            fe = [f for f in fs if is_err_of(f.ret)]
+            pe = [x for x in ps if is_err_of(x[1])]
+            if (fe or pe) and self.rng.chance(3, 4):
+                fs, ps = fe, pe
+        if fs and (not ps or self.rng.chance(1, 2)):
             src = self.gen_call(ctx, self.rng.pick(fs), 1)
-        else:
-            ps = self.paths(ctx, ok, dyn=False)
-            if ps:
-                src = self.rng.pick(ps)[0]
-            elif fs:
-                src = self.gen_call(ctx, self.rng.pick(fs), 1)
+        elif ps:
+            src = self.rng.pick(ps)[0]
         if src is None:
             if not ctx.hoist:
                 return None
-            if rb[0] == "opt":
-                t = ("opt", self.scalar_ty())
+            u = self.scalar_ty()
+            if rb[0] == "opt" and (self.base(rb[1])[0] not in ("enum", "struct", "bool") or u == rb[1] or self.rng.chance(1, 3)):
+                t = ("opt", u)
+            elif u == rb[1]:
+                return None
             else:
-                u = self.scalar_ty()
-                if u == rb[1]:
-                    return None
                 t = ("err", rb[1], u)
             src = var(self.hoist_decl(ctx, t, self.gen_expr(ctx, t, 1), mut=self.rng.chance(1, 2)))
         sb = self.base(src.ty)
         pt = sb[1] if sb[0] == "opt" else sb[2]
         self.use("try_opt" if sb[0] == "opt" else "try_err")
+        if sb[0] == "err" and rb[0] == "opt":
+            self.use("try_err_into_opt")
         name = self.fresh()
         v = self.declare(ctx, name, pt, False)
-        out = [N("decl", name=name, ty=pt, mut=False, init=N("try", e=src, ty=pt), annotate=self.rng.chance(1, 2))]
+        out = [N("decl", name=name, ty=pt, mut=False, init=N("try", e=src, ty=pt, into=rb[0]), annotate=self.rng.chance(1, 2))]
         if not ctx.pure:
             out.append(N("ev", id=self.new_id()))
         return out
@@ -1181,6 +1371,8 @@ class Gen(ExprGen):
                 if more and not self.empty_vararg_first:
                     lo = 1      # an empty varargs group followed by another parameter is the recorded defect 'empty_vararg_first'
                 n = rng.range(lo, 4)
+                if getattr(f, "padded_va", None) == pn:
+                    n = rng.range(2, 4)       # the callee reads elements at index >= 1
                 if more and n == 0:
                     self.use("empty_vararg_first")
                 groups.append([self.gen_expr(ctx, pt, d) for _ in range(n)])
@@ -1211,6 +1403,22 @@ class Gen(ExprGen):
         self.use("is_variant")
         for target, tag in self.sum_targets(v.ty)[:3]:
             out.append(N("print", id=self.new_id(), e=N("isvar", e=var(v), target=target, ty=BOOL)))
+        out.extend(self.print_payloads(ctx, var(v), v.ty))
+        return out
+
+    def print_payloads(self, ctx, e, sty, limit=3):
+        """if #is_variant(e, T) { prints of the leaves of #unwrap(e, T) }  for every variant that has a payload"""
+        out = []
+        for target, tag in self.sum_targets(sty)[:4]:
+            bt = self.bind_ty(sty, target)
+            if bt is None:
+                continue
+            explicit = not (self.base(sty)[0] == "opt" and self.rng.chance(1, 2))
+            uw = N("unwrap", e=e, target=target, explicit=explicit, ty=bt)
+            prints = self.print_all(ctx, uw, bt, limit=limit)
+            if prints:
+                self.use("unwrap")
+                out.append(N("if", cond=N("isvar", e=e, target=target, ty=BOOL), then=Block(prints), els=None))
         return out
 
     def st_call(self, ctx):
